@@ -427,7 +427,7 @@ def sec_nuts_tree_native(chk):
     chk.under_contract(hmc.generate_nuts_tree)
     chk.under_contract(hmc.iterative_build_tree)
     rng = np.random.default_rng(3200 + chk.seed)
-    fails, cases, stops = [], 0, dict(turn_sub=0, turn_total=0, depth=0)
+    fails, cases, stops = [], 0, dict(turn_sub=0, turn_total=0, depth=0, diverging=0)
 
     def uturn(l, r):
         return (np.dot(r[1], r[0] - l[0]) < 0) and (np.dot(l[1], l[0] - r[0]) < 0)
@@ -448,7 +448,8 @@ def sec_nuts_tree_native(chk):
                 q0, p0 = jnp.asarray(rng.normal(size=dim)), jnp.asarray(rng.normal(size=dim))
                 seed = int(rng.integers(0, 2 ** 31 - 1))
                 key = jax.random.PRNGKey(seed)
-                tree = hmc.generate_nuts_tree(hmc.QP(q0, p0), key, eps, maxd, stepper, V, kin, im, bias_transition=bool(rep % 2))
+                maxdiff = [1000., 5., 50.][rep % 3]       # divergence threshold: a trajectory whose energy error exceeds it is abandoned
+                tree = hmc.generate_nuts_tree(hmc.QP(q0, p0), key, eps, maxd, stepper, V, kin, im, bias_transition=bool(rep % 2), max_energy_difference=maxdiff)
                 # ---- reference: trajectory as a dict time -> (q, p); directions drawn as the driver documents (one Bernoulli(1/2) per doubling)
                 H = lambda qp: float(V(jnp.asarray(qp[0])) + kin(im, jnp.asarray(qp[1])))      # noqa: E731
 
@@ -456,6 +457,7 @@ def sec_nuts_tree_native(chk):
                     out = stepper(direction * eps, im, hmc.QP(jnp.asarray(qp[0]), jnp.asarray(qp[1])))
                     return (np.asarray(out.position), np.asarray(out.momentum))
                 traj = {0: (np.asarray(q0), np.asarray(p0))}
+                H0 = H(traj[0])
                 lo = hi = 0
                 depth, k, stop_reason = 0, key, None
                 while depth <= maxd:
@@ -469,6 +471,9 @@ def sec_nuts_tree_native(chk):
                         traj[nxt] = step(traj[cur], 1. if right else -1.)
                         new.append(nxt)
                         cur = nxt
+                        if abs(H(traj[nxt]) - H0) > maxdiff:
+                            sub_turn = "diverging"
+                            break
                         if n % 2 == 1:      # right end of aligned sub-trees of sizes 2, 4, ..: check each against its other end
                             size = 2
                             while (n + 1) % size == 0 and size <= n + 1:
@@ -480,7 +485,7 @@ def sec_nuts_tree_native(chk):
                     if sub_turn:
                         for t in new:
                             traj.pop(t)
-                        stop_reason = "turn_sub"
+                        stop_reason = "diverging" if sub_turn == "diverging" else "turn_sub"
                         break
                     lo, hi = (lo, hi + npts) if right else (lo - npts, hi)
                     depth += 1
@@ -490,6 +495,11 @@ def sec_nuts_tree_native(chk):
                 stops[stop_reason or "depth"] += 1
                 lab = f"{pname} potential, dimension {dim}, step {eps:.3f}, max depth {maxd}, key {seed}"
                 got_l, got_r = (np.asarray(tree.left.position), np.asarray(tree.left.momentum)), (np.asarray(tree.right.position), np.asarray(tree.right.momentum))
+                if stop_reason == "diverging" and not bool(tree.diverging):
+                    fails.append(dict(case=f"{lab}: the energy error exceeds max_energy_difference but the tree is not flagged diverging", detail=""))
+                if not all(np.all(np.isfinite(traj[t][0])) and np.all(np.isfinite(traj[t][1])) for t in range(lo, hi + 1)):
+                    fails.append(dict(case=f"{lab}: the retained trajectory of the reference is not finite (the divergence threshold should have stopped it)", detail=""))
+                    continue
                 if not (np.allclose(got_l[0], traj[lo][0], rtol=1e-9, atol=1e-11) and np.allclose(got_l[1], traj[lo][1], rtol=1e-9, atol=1e-11)
                         and np.allclose(got_r[0], traj[hi][0], rtol=1e-9, atol=1e-11) and np.allclose(got_r[1], traj[hi][1], rtol=1e-9, atol=1e-11)):
                     fails.append(dict(case=f"{lab}: the end points of the returned tree are not those of the doubling procedure (reference stops by {stop_reason or 'depth'} at depth {depth})", detail=""))
